@@ -35,6 +35,7 @@ FIXED_SPECS = [
     ('allof-inline-shared', {'t': 'allof', 'xs': [O({'a': S, 'n': O({'x': N})}), O({'b': OPT(N), 'n': O({'y': S})})]}, {}),
     ('union-overlap', {'t': 'anyof', 'xs': [O({'a': S}), O({'a': S, 'b': N}), O({'b': OPT(N), 'c': O({'d': B})})]}, {}),
     ('record', O({}, [{'key': S, 'value': N}]), {}),
+    ('record-any', O({'id': S}, [{'key': S, 'value': {'t': 'any'}}]), {}),
     ('obj-index', O({'a': S}, [{'key': S, 'value': {'t': 'anyof', 'xs': [S, N]}}]), {}),
     ('array-obj', {'t': 'array', 'x': O({'id': S, 'tags': {'t': 'array', 'x': S}})}, {}),
     ('recursive-list', {'t': 'ref', 'name': 'L'}, {'L': O({'v': N, 'next': {'t': 'anyof', 'xs': [{'t': 'ref', 'name': 'L'}, NULL]}})}),
@@ -52,6 +53,7 @@ TS_PROGRAMS = [
     ('ts-inter-inline', 'type AB = {id: string, title: string} & {id: string, body?: number};', 'AB'),
     ('ts-record', 'type R = Record<string, number | null>;', 'R'),
     ('ts-record-mixed', 'type R = {id: string, [k: string]: string | number};', 'R'),
+    ('ts-record-unknown', 'type R = {id: string, meta: Record<string, unknown>, [k: string]: any};', 'R'),
     ('ts-tuple', 'type T = [string, number, ...boolean[]];', 'T'),
     ('ts-tuple-closed', "type T = [string, 1 | 2];", 'T'),
     ('ts-enumish', "type E = 'a' | 'b' | 1 | null | true;", 'E'),
@@ -308,7 +310,7 @@ def kinds_for(spec, defs, tier):
     L = min(3, max(1, max_tuple(spec, defs) + 1))
     if tier != 'quick':
         L = max(L, 2)
-    kinds = ['undefined', 'null', 'true', 'number', 'string', 'bigint', 'date'] + [f'array{i}' for i in range(L + 1)] + ['object']
+    kinds = ['undefined', 'null', 'true', 'number', 'string', 'bigint', 'date', 'symbol'] + [f'array{i}' for i in range(L + 1)] + ['object']
     if 'map' in feats or tier != 'quick':
         kinds += ['map1']
     if 'set' in feats or tier != 'quick':
@@ -316,7 +318,7 @@ def kinds_for(spec, defs, tier):
     if 'typedarray' in feats or 'any' in feats or tier != 'quick':
         kinds += ['u8array']
     if tier != 'quick':
-        kinds += ['false', 'function', 'invaliddate', 'map0', 'set0', 'f64array', 'symbol']
+        kinds += ['false', 'function', 'invaliddate', 'map0', 'set0', 'f64array']
     return kinds
 
 
@@ -438,7 +440,7 @@ def run(pid, tier, extra_jobs=None):
             if not reproduced:
                 rep.note_inconclusive(f'{job["name"]}: violation "{cls}" did not reproduce on the stripped runtime ({str(rr.get("harness_error", ""))[:120]}); witness {json.dumps(v.get("concrete"))[:200]}')
                 continue
-            key = f'{pid.lower()}:{cls}:{role(pid, cls, feats)}'
+            key = f'{pid.lower()}:{cls}:{role(pid, cls, feats)}' + (f'@{job["name"]}' if job.get('module') else '')
             rep.violation(key, f'{job["name"]} ({"compiled" if job.get("module") else "ad-hoc"} validator {json.dumps(job["spec"])[:160]}): {v["what"]} for input {v["input"][:160]} '
                                f'(witness {json.dumps(v.get("concrete"))[:200]})', {'cmd': 'val', 'job': rj})
     agg['solver_s'] = round(agg['solver_s'], 2)
